@@ -202,6 +202,16 @@ def run(program, rep, tier):
                rename=lambda r: 'C02.relay-deref',
                why='a postponed on_add / on_remove is silently dropped by the '
                'delivery loop')
+    # on_remove of a deferred deletion is delivered ONCE: the mark of the
+    # entity being torn down has left the pending set before its callbacks
+    # run, so a raising callback does not make the next process() tear the
+    # same entity down - and notify its other components - again (C05's rule)
+    from rules import c05
+    rep.borrow(c05.run, program, rep, 'quick',
+               keep=lambda o: o.rule == 'C05.progress',
+               rename=lambda r: 'C02.deferred-once',
+               why='components of an entity awaiting deletion receive '
+               'on_remove again on every later frame')
     # postponed callbacks are released once, in order (the C04 release rules)
     from rules import c04
     n0 = len(rep.obs)
